@@ -124,9 +124,25 @@ class C14(Machine):
                               tag="warm_oneshot" + ("_opts" if wkw else ""), kind=name, role="noise")
                 if v < 0.5:
                     pb.plan["meta"].setdefault("warm_faults", []).append(wid)
-        ini = pb.step(c, k="call", obj=o, name="initstate", args=[], kw={}, tag="init", kind=name, role="init")
+        # one random BLAKE/BLAKE2 stream in three is started with options (salt, personalisation, output
+        # length): the one-shot call it is compared with carries the same options
+        ikw, okw = {}, {}
+        if enum is None and name.startswith("Blake") and rng.random() < 0.33:
+            if name in ("Blake2s", "Blake2b"):
+                for f in ("salt", "pers"):
+                    if rng.random() < 0.4:
+                        ikw[f] = B(rbytes(rng, 2 * w))
+                if rng.random() < 0.6 or not ikw:
+                    ikw["outlen"] = rng.randint(1, 8 * w - 1)
+                okw = dict(ikw)
+            else:
+                sv = rng.getrandbits(4 * w * 8)
+                ikw, okw = {"salt": sv}, {"s": sv}
+        ini = pb.step(c, k="call", obj=o, name="initstate", args=[], kw=ikw, tag="init_opts" if ikw else "init", kind=name, role="init")
         pos = 0
         st = {"obj": o, "kind": name, "pieces": [], "upd": [], "fin": None, "recipe": recipe, "c": c, "init": ini}
+        if okw:
+            st["opts"] = okw
         # one stream in seven reads its pieces through ONE reused bytearray (readinto-style loop)
         buf = pb.obj({"kind": "value", "val": {"ba": ""}}) if (enum is None and rng.random() < 0.15) else None
         if buf is not None:
@@ -312,7 +328,12 @@ class C14(Machine):
             M = b"".join(pieces)
             e = by_id[st["fin"]]
             rec = dict(st["recipe"])
-            mini = {"objects": [rec], "steps": [{"id": 1, "k": "call", "obj": 0, "name": "__call__", "args": [B(M)], "kw": {}}],
+            okw = st.get("opts", {})
+            if okw and step_by_id[st["init"]].get("kw", {}) != ({"salt": okw["s"]} if "s" in okw else okw):
+                continue        # (only through shrinking) the stream no longer starts with the options it is compared under
+            if okw:
+                probe("stream_started_with_options")
+            mini = {"objects": [rec], "steps": [{"id": 1, "k": "call", "obj": 0, "name": "__call__", "args": [B(M)], "kw": okw}],
                     "observe": [], "fp": []}
             exp = oracle.ask(mini)[0]["out"]
             if exp[0] == "ok" and e["out"] != exp:
